@@ -21,34 +21,6 @@ makes the record look torn).
 -/
 namespace SgModel.Wal
 
-/-- records `q+1, q+2, …` for the entries `es` — what consecutive `append`s write -/
-def number (q : Nat) : List Bytes → List Rec
-  | [] => []
-  | e :: es => ⟨q + 1, e⟩ :: number (q + 1) es
-
-theorem number_entries : ∀ (q : Nat) (es : List Bytes), (number q es).map (·.entry) = es
-  | _, [] => rfl
-  | q, e :: es => by simp [number, number_entries (q + 1) es]
-
-theorem number_seqs : ∀ (q : Nat) (es : List Bytes),
-    (number q es).map (·.seq) = (List.range es.length).map (fun i => q + 1 + i)
-  | _, [] => rfl
-  | q, e :: es => by
-    simp only [number, List.map_cons, List.length_cons, List.range_succ_eq_map, number_seqs (q + 1) es,
-      List.map_map]
-    simp only [List.cons.injEq, Nat.add_zero, true_and]
-    apply List.map_congr_left; intro i _; simp; omega
-
-theorem foldl_append_cur : ∀ (es : List Bytes) (s : State) (f : File), s.cur = some f →
-    (es.foldl append s).cur = some ⟨f.name, f.data ++ frames (number s.seq es)⟩
-      ∧ (es.foldl append s).closed = s.closed ∧ (es.foldl append s).seq = s.seq + es.length
-  | [], s, f, h => by simp [number, frames, h]
-  | e :: es, s, f, h => by
-    have h1 : (append s e).cur = some ⟨f.name, f.data ++ frame ⟨s.seq + 1, e⟩⟩ := by simp [append, h]
-    have := foldl_append_cur es (append s e) _ h1
-    simp only [List.foldl_cons, number, frames, append_seq] at this ⊢
-    refine ⟨by rw [this.1]; simp, by rw [this.2.1]; simp [append], by rw [this.2.2]; simp; omega⟩
-
 /-- **Replay of an appended log returns every record, in append order, numbered 1, 2, 3, ….**
 (`step … (.append e)` does not depend on the mode or the decoder.) -/
 theorem C15_replay_append_all (dec : Dec) (e : Bytes) (es : List Bytes)
@@ -138,17 +110,56 @@ theorem C15_reopen_resumes_above (dec : Dec) (ops : List Op) (hN : ops.length < 
   rw [hp]
   exact seqs_le (dirOK_findLatest hinv.ok).1
 
-theorem replay_pre_then {dec : Dec} (pre : List Rec) (hw : ∀ r ∈ pre, WFRec dec r) (rest : Bytes)
-    (P : List Rec × End → Prop)
-    (h : ∀ fuel, P (pre ++ (replayFile Mode.fixed dec (fuel + 1) rest).1,
-        (replayFile Mode.fixed dec (fuel + 1) rest).2)) :
-    P (replay Mode.fixed dec (frames pre ++ rest)) := by
-  have hlen := frames_length_ge pre
-  have : (frames pre ++ rest).length + 1 = pre.length + (((frames pre ++ rest).length - pre.length) + 1) := by
-    simp only [List.length_append]; omega
-  unfold replay
-  rw [this, replayFile_frames_then pre hw]
-  exact h _
+/-- **Nothing is lost, invented or reordered**: over any history the entries replayed are a
+sub-list of the appended entries, in append order; if the history has no crash they are
+*all* the appended entries — across every reopen and checkpoint. -/
+theorem C15_replay_returns_appended (dec : Dec) (ops : List Op) (hN : ops.length < 256 ^ 8)
+    (he : ∀ e ∈ opEntries ops, WFEntry dec e) :
+    let p := replayDir Mode.fixed dec (image (run Mode.fixed dec ops))
+    List.Sublist (p.1.map (·.entry)) (opEntries ops)
+      ∧ (noCrash ops = true → p.1.map (·.entry) = opEntries ops) := by
+  intro p
+  have hp : p = (allRecs dec (run Mode.fixed dec ops), End.ok) := replayDir_allRecs (inv_run ops hN he)
+  have := allRecs_foldl ops {} 0 (inv_init dec) (Nat.le_refl _) (by simpa using hN) he
+  have h0 : allRecs dec ({} : State) = [] := rfl
+  simp only [h0, List.map_nil, List.nil_append] at this
+  rw [hp]; exact this
+
+/-- **A crash loses only a suffix**: whatever number of bytes of the open file survive, the
+records replayed afterwards are a prefix of those replayed before. -/
+theorem C15_crash_keeps_prefix (dec : Dec) (ops : List Op) (hN : ops.length < 256 ^ 8)
+    (he : ∀ e ∈ opEntries ops, WFEntry dec e) (k : Nat) :
+    let s := run Mode.fixed dec ops
+    (replayDir Mode.fixed dec (image (step Mode.fixed dec s (.crash k)))).1
+      <+: (replayDir Mode.fixed dec (image s)).1 := by
+  intro s
+  have hinv : Inv dec s := inv_run ops hN he
+  show (replayDir Mode.fixed dec (image (crash Mode.fixed dec s k))).1 <+: _
+  rw [replayDir_allRecs hinv, replayDir_allRecs (inv_crash k hinv).1]
+  exact allRecs_crash k hinv
+
+/-- **What was flushed is durable**: a crash right after `flush` (or after an `append` in sync
+mode) leaves the directory byte-for-byte as it was, for any state and any crash point. -/
+theorem C15_flush_then_crash_loses_nothing (m : Mode) (dec : Dec) (s : State) (k : Nat) :
+    image (crash m dec (flush s) k) = image s
+    ∧ (s.sync = true → ∀ e, image (crash m dec (append s e) k) = image (append s e)) := by
+  constructor
+  · unfold crash flush
+    cases hc : s.cur with
+    | none => simp [image, reopen, dir, close, hc]
+    | some f =>
+      have : max f.data.length (min k f.data.length) = f.data.length := by omega
+      simp [image, reopen, dir, close, hc, this]
+  · intro hs e
+    unfold crash
+    cases hc : (append s e).cur with
+    | none => simp [image, reopen, dir, close, hc]
+    | some f =>
+      have hfl : (append s e).flushed = f.data.length := by
+        simp only [append, hs, if_true] at hc ⊢
+        simp at hc; rw [← hc]
+      have : max (append s e).flushed (min k f.data.length) = f.data.length := by omega
+      simp [image, reopen, dir, close, hc, this]
 
 /-- **A single changed byte inside the entry is reported**: after any intact records `pre`,
 a record whose entry byte `b` became `b ^^^ mask` (`mask ≠ 0`, any position) stops the replay
@@ -199,21 +210,6 @@ theorem C15_flip_cksum_detected (dec : Dec) (pre : List Rec) (hw : ∀ r ∈ pre
 
 /-! ### the model satisfies the executable specification -/
 
-theorem strictIncr_iff : ∀ (l : List Nat), strictIncr l = true ↔ l.Pairwise (· < ·)
-  | [] => by simp [strictIncr]
-  | [a] => by simp [strictIncr]
-  | a :: b :: rest => by
-    have ih := strictIncr_iff (b :: rest)
-    simp only [strictIncr, Bool.and_eq_true, decide_eq_true_eq, ih, List.pairwise_cons]
-    constructor
-    · rintro ⟨hab, h1, h2⟩
-      refine ⟨fun x hx => ?_, h1, h2⟩
-      rcases List.mem_cons.mp hx with rfl | hx
-      · exact hab
-      · exact Nat.lt_trans hab (h1 x hx)
-    · rintro ⟨h0, h1, h2⟩
-      exact ⟨h0 b (by simp), h1, h2⟩
-
 /-- For every reachable state of the writer, what the model observes of the directory
 (`Wal::new` + `replay(from, ·)` for every `from`) satisfies `specIntact` for the records the
 directory holds: strictly increasing sequences, the `from` filter and the returned last
@@ -238,25 +234,59 @@ theorem C15_model_refines_spec_partial (dec : Dec) (ops : List Op) (hN : ops.len
     intro frm hfrm
     simp [List.getElem?_map, List.getElem?_range hfrm]
 
+/-- For every history whose entries are pairwise distinct (the harness tags them), the
+model's own observations — per-op return values and the final `replay(from, ·)` sweep after
+a clean close — satisfy the core history specification `specHistCore` that the harness
+evaluates on the real `Wal`. -/
+theorem C15_model_refines_spec_history (dec : Dec) (ops : List Op) (hN : ops.length < 256 ^ 8)
+    (he : ∀ e ∈ opEntries ops, WFEntry dec e) (hnd : (opEntries ops).Nodup) (top : Nat) :
+    specHistCore ops (traceObs Mode.fixed dec {} ops) (finalObs Mode.fixed dec ops top) = true := by
+  have hinv : Inv dec (run Mode.fixed dec ops) := inv_run ops hN he
+  have hint := C15_model_refines_spec_partial dec ops hN he top
+  have hp := replayDir_allRecs hinv
+  have hsub : List.Sublist (allRecs dec (run Mode.fixed dec ops)) (appRecs Mode.fixed dec {} ops) := by
+    have := allRecs_foldl_rec ops {} 0 (inv_init dec) (Nat.le_refl _) (by simpa using hN) he
+    have h0 : allRecs dec ({} : State) = [] := rfl
+    simpa [h0, run] using this
+  have hfin : finalObs Mode.fixed dec ops top
+      = observe Mode.fixed dec (dir (run Mode.fixed dec ops)) top := by
+    simp [finalObs, dir_close]
+  have hto := traceObs_ok Mode.fixed dec ops {}
+  have hnd' : ((appRecs Mode.fixed dec {} ops).map (·.entry)).Nodup := by
+    rw [appRecs_entries]; exact hnd
+  simp only [hp] at hint
+  have hruns : (observe Mode.fixed dec (dir (run Mode.fixed dec ops)) top).runs
+      = ((allRecs dec (run Mode.fixed dec ops)).map (·.entry), End.ok,
+          lastSeq 0 (allRecs dec (run Mode.fixed dec ops)))
+        :: ((List.range top).map Nat.succ).map (fun frm =>
+          ((delivered frm (allRecs dec (run Mode.fixed dec ops))).map (·.entry), End.ok,
+            lastSeq frm (allRecs dec (run Mode.fixed dec ops)))) := by
+    have hp' : replayDir Mode.fixed dec ((dir (run Mode.fixed dec ops)).map (·.data))
+        = (allRecs dec (run Mode.fixed dec ops), End.ok) := hp
+    simp only [observe, hp', List.range_succ_eq_map, List.map_cons, delivered_zero, if_true]
+  have hsubseq : isSubseq ((allRecs dec (run Mode.fixed dec ops)).map (·.entry))
+      ((appRecs Mode.fixed dec {} ops).map (·.entry)) = true := isSubseq_of_sublist (hsub.map _)
+  unfold specHistCore
+  simp only [appended_trace, hfin, hto.1, beq_self_eq_true, Bool.true_and]
+  rw [hruns]
+  simp only
+  rw [filter_of_sublist hsub hnd']
+  simp only [hsubseq, hint, beq_self_eq_true, Bool.and_true]
+  exact hto.2
+
 /-
-Full statement (not proved): `specHistory ops (traceObs …) (finalObs …) = true` and
-`specTrunc` / `specFlip` of the model's observations of every truncated / flipped image.
-What is missing is bookkeeping, not a new idea: relating `appended ops (traceObs …)` to the
-records of the directory through crashes (a sub-list argument), and the index arithmetic of
-`List.modify` for a cut in a middle file.  The facts those specifications check are proved
-above in direct form (`C15_seq_strict_across_history`, `C15_replay_truncate`,
-`C15_flip_*_detected`); the harness evaluates all of `specHistory`, `specTrunc`, `specFlip`
-on the implementation.
+Full statement (not proved): additionally `specDurable ops (finalObs …) = true`, and `specTrunc`
+/ `specFlip` of the model's observations of every truncated / flipped image.  What is missing
+is bookkeeping, not a new idea: the `durability` marking against the writer's `flushed`
+counter, and the index arithmetic of `List.modify` for a cut or flip in a middle file of a
+directory.  The facts those specifications check are proved above in direct form
+(`C15_flush_then_crash_loses_nothing`, `C15_crash_keeps_prefix`, `C15_replay_truncate`,
+`C15_flip_entry_detected`, `C15_flip_cksum_detected`); the harness evaluates all of
+`specHistory`, `specTrunc`, `specFlip` on the implementation and compares the model with the
+implementation on the same cases.
 -/
 
 /-! ### the pinned tree violated the property (witnesses replayed by the corpus) -/
-
-/-- toy decoders for the concrete witnesses: every entry is one byte / is length-prefixed -/
-def dec1 : Dec := fun _ => some 1
-def decLen : Dec := fun b =>
-  match b with
-  | [] => none
-  | n :: rest => if n.toNat ≤ rest.length then some (n.toNat + 1) else none
 
 /-- defect 1: after a reopen the counter restarted from the newest file *name* — the log
 `1, 2 | reopen | append` replays the sequences `1, 2, 2` -/
